@@ -158,3 +158,87 @@ func itoa(n int) string {
 	}
 	return s
 }
+
+// quarterText is the %v text of k/4 (k in -12..40).
+func quarterText(k int) string {
+	neg := k < 0
+	if neg {
+		k = -k
+	}
+	s := itoa(k / 4)
+	switch k % 4 {
+	case 1:
+		s += ".25"
+	case 2:
+		s += ".5"
+	case 3:
+		s += ".75"
+	}
+	if neg {
+		s = "-" + s
+	}
+	return s
+}
+
+// tenthText is the %v text of k/10 (|k| < 100).
+func tenthText(k int) string {
+	neg := k < 0
+	if neg {
+		k = -k
+	}
+	s := itoa(k / 10)
+	if k%10 != 0 {
+		s += "." + itoa(k%10)
+	}
+	if neg {
+		s = "-" + s
+	}
+	return s
+}
+
+// H_C15_kinds_str: numbers of every Go numeric kind against strings: the
+// order of the number's decimal text against the string, in both
+// directions.
+func H_C15_kinds_str() {
+	kind := verif.Choose("kind", 7)
+	k := verif.IntRange("k", -12, 11)
+	var num any
+	var text string
+	switch kind {
+	case 0:
+		num, text = float32(k)/4, quarterText(k)
+	case 1:
+		num, text = float64(k)/4, quarterText(k)
+	case 2:
+		num, text = int32(k), itoa(k)
+	case 3:
+		num, text = int64(k), itoa(k)
+	case 4:
+		verif.Assume(k >= 0)
+		num, text = uint16(k), itoa(k)
+	case 5:
+		// not dyadic: the 32-bit value differs from the 64-bit one, the
+		// shortest text that identifies it among float32s is still k/10
+		num, text = float32(k)/10, tenthText(k)
+	case 6:
+		num, text = float64(k)/10, tenthText(k)
+	}
+	alphabet := "0129.-"
+	if verif.Tier() > 0 {
+		alphabet = "0123456789.-"
+	}
+	s := verif.Str("s", 2, alphabet)
+	r := Compare(num, s)
+	want := 0
+	if text < s {
+		want = -1
+	} else if text > s {
+		want = 1
+	}
+	verif.Assert(r == want, "decimal-text-order")
+	verif.Assert(Compare(s, num) == -r, "antisymmetric")
+	// the number's own text, and that text extended, as the string operand
+	verif.Assert(Compare(num, text) == 0 && Compare(text, num) == 0, "equal-to-own-text")
+	verif.Assert(Compare(num, text+"0") == -1 && Compare(text+"0", num) == 1, "below-extended-text")
+	verif.Reach("end")
+}
